@@ -169,9 +169,27 @@ def handmade(pt: int, lt: int, *, names=8, pf=0, dt=0, version=1, delimited=True
 PARSERS = [(api, reader) for api in ("generic", "rdflib") for reader in ("flat", "grouped", "to_graph")]
 
 
-def parse_with(api: str, reader: str, data: bytes, strict: bool | None = None):
+def parse_with(api: str, reader: str, data: bytes, strict: bool | None = None,
+               preread: bool = False):
     """-> ('ok', statements) | ('raised', exception name)."""
     try:
+        if preread:
+            # documented alternative: hand the already read (options, frames) pair to the parser
+            from pyjelly.parse.ioutils import get_options_and_frames  # noqa: PLC0415
+
+            inp = io.BytesIO(data)
+            options, frames = get_options_and_frames(inp)
+            if api == "generic":
+                from pyjelly.integrations.generic import parse as gp  # noqa: PLC0415
+
+                out = [T.ev_from_generic(x) for x in gp.parse_jelly_flat(
+                    inp, frames=frames, options=options, logical_type_strict=bool(strict))]
+            else:
+                from pyjelly.integrations.rdflib import parse as rp  # noqa: PLC0415
+
+                out = [T.ev_from_rdflib(x) for x in rp.parse_jelly_flat(
+                    inp, frames=frames, options=options, logical_type_strict=bool(strict))]
+            return "ok", sorted(DR.stmts_of(out), key=repr)
         if api == "generic":
             from pyjelly.integrations.generic import parse as gp  # noqa: PLC0415
 
@@ -236,11 +254,14 @@ def run_parse_case(case: dict) -> list[tuple[str, str]]:
         data = handmade(pt, lt)
         base = {}
         for api in ("generic", "rdflib"):
-            for reader in ("flat", "grouped"):
+            for reader in ("flat", "grouped", "flat-preread"):
                 for strict in (True, False):
-                    res, info = parse_with(api, reader, data, strict)
+                    if reader == "flat-preread":
+                        res, info = parse_with(api, "flat", data, strict, preread=True)
+                    else:
+                        res, info = parse_with(api, reader, data, strict)
                     if strict:
-                        accept = lt in (FLAT_LT if reader == "flat" else GROUPED_LT)
+                        accept = lt in (FLAT_LT if reader.startswith("flat") else GROUPED_LT)
                         if accept != (res == "ok"):
                             fails.append(("strict-table", f"strict {reader} parser ({api}) "
                                           f"{'accepts' if res == 'ok' else 'rejects'} logical type {lt}"))
@@ -249,7 +270,7 @@ def run_parse_case(case: dict) -> list[tuple[str, str]]:
                             fails.append(("nonstrict", f"non-strict {reader} parser ({api}) refuses "
                                                        f"logical type {lt}: {info}"))
                         else:
-                            ref = parse_with(api, reader, handmade(pt, 0), False)
+                            ref = parse_with(api, reader.split("-")[0], handmade(pt, 0), False)
                             if ref[1] != info:
                                 fails.append(("nonstrict", f"non-strict {reader} result depends on "
                                                            f"the logical type {lt}"))
